@@ -204,6 +204,9 @@ type seq struct {
 	compactTs uint64 // timestamp reported by the last successful Compact since the tree was opened
 	valCtr    uint64
 	lastKeys  [][]byte // keys written by the latest insertion: always re-queried on every open snapshot
+	opens     int      // how many times the tree was opened
+	busy      int      // > 0 while reader goroutines or a background compaction use the tree: no close / reopen
+	tsAtOpen  uint64   // logical time of the tree when it was last opened
 	depth     int
 	maxDepth  int
 	conc      bool         // thorough tier: reader goroutines and background compaction
@@ -240,6 +243,12 @@ func canonSig(sig string) string {
 }
 
 func (s *seq) violation(sig, detail string) {
+	s.dead.Store(true)
+	s.record(sig, detail)
+}
+
+// record reports a violation without ending the sequence (the caller re-aligns the model).
+func (s *seq) record(sig, detail string) {
 	if c := canonSig(sig); c != sig {
 		detail = "[" + sig + "] " + detail
 		sig = c
@@ -247,7 +256,6 @@ func (s *seq) violation(sig, detail string) {
 	s.logMu.Lock()
 	ops := strings.Join(s.log, "\n")
 	s.logMu.Unlock()
-	s.dead.Store(true)
 	s.c.Violation(sig, fmt.Sprintf("sequence %d (%+v): %s", s.id, s.cf, detail), map[string][]byte{
 		"ops.txt":    []byte(ops + "\n"),
 		"config.txt": []byte(fmt.Sprintf("sequence=%d\n%+v\nrerun: VERIF_SEED=%d VERIF_C10_SEQ=%d ./check C10 --tier %s\n", s.id, s.cf, s.c.Seed, s.id, s.c.Tier)),
@@ -1197,7 +1205,16 @@ func (s *seq) openSnapshot() {
 			return
 		}
 	}
-	s.probeSnapshot(s.r, ss, 3, true)
+	if !s.probeSnapshot(s.r, ss, 3, true) {
+		return
+	}
+	// a refusal with a snapshot open and an accepted insertion pending
+	if s.r.IntN(8) == 0 {
+		s.insert()
+		if !s.dead.Load() {
+			s.badInsert(badDecreasingTs)
+		}
+	}
 }
 
 func (s *seq) closeSnapshot(i int, probeBusy bool) bool {
@@ -1444,27 +1461,100 @@ func (s *seq) insert() {
 	s.afterMutation("BulkInsert")
 }
 
-// rejected inputs: the call must fail and leave the tree untouched.
-func (s *seq) badInsert() {
+// refused inputs: the call must fail and leave the tree - accepted but not yet
+// flushed insertions included - and every open snapshot as they were.
+const (
+	badEmptyBulk = iota
+	badEmptyKey
+	badEmptyValue
+	badKeyTooLong
+	badValueTooLong
+	badStaleTs
+	badDecreasingTs // same key twice in one bulk, the second time with an older timestamp: refused while inserting
+	badKinds
+)
+
+var badNames = [...]string{"empty-bulk", "empty-key", "empty-value", "key-too-long", "value-too-long", "stale-ts", "decreasing-ts"}
+
+// validEntries: n entries on distinct keys (none equal to avoid) with legal timestamps.
+func (s *seq) validEntries(n int, avoid []byte) []*tbtree.KVT {
 	cur := s.m.Ts()
-	var bulk []*tbtree.KVT
-	var name string
-	switch s.r.IntN(6) {
-	case 0:
-		name, bulk = "empty-bulk", nil
-	case 1:
-		name, bulk = "empty-key", []*tbtree.KVT{{K: s.poolKey(), V: s.value()}, {K: nil, V: s.value()}}
-	case 2:
-		name, bulk = "empty-value", []*tbtree.KVT{{K: s.poolKey(), V: s.value()}, {K: s.poolKey(), V: nil}}
-	case 3:
-		name, bulk = "key-too-long", []*tbtree.KVT{{K: s.poolKey(), V: s.value()}, {K: bytes.Repeat([]byte{'a'}, s.cf.MaxKey+1), V: s.value()}}
-	case 4:
-		name, bulk = "value-too-long", []*tbtree.KVT{{K: s.poolKey(), V: s.value()}, {K: s.poolKey(), V: bytes.Repeat([]byte{'a'}, s.cf.MaxVal+1)}}
-	case 5:
+	var out []*tbtree.KVT
+	seen := map[string]bool{string(avoid): true}
+	for i := 0; i < 4*n && len(out) < n; i++ {
+		k := s.poolKey()
+		if seen[string(k)] {
+			continue
+		}
+		seen[string(k)] = true
+		e := &tbtree.KVT{K: k, V: s.value()}
+		if s.r.IntN(3) == 0 {
+			e.T = cur + 1 + uint64(s.r.IntN(4))
+		}
+		out = append(out, e)
+	}
+	return out
+}
+
+func (s *seq) badInsert(kind int) {
+	if kind < 0 {
+		kind = s.r.IntN(badKinds + 3)
+		if kind >= badKinds {
+			kind = badDecreasingTs
+		}
+	}
+	cur := s.m.Ts()
+	name := badNames[kind]
+	place := "last"
+	var bad []*tbtree.KVT
+	switch kind {
+	case badEmptyBulk:
+	case badEmptyKey:
+		bad = []*tbtree.KVT{{K: nil, V: s.value()}}
+	case badEmptyValue:
+		bad = []*tbtree.KVT{{K: s.poolKey(), V: nil}}
+	case badKeyTooLong:
+		bad = []*tbtree.KVT{{K: bytes.Repeat([]byte{'a'}, s.cf.MaxKey+1), V: s.value()}}
+	case badValueTooLong:
+		bad = []*tbtree.KVT{{K: s.poolKey(), V: bytes.Repeat([]byte{'a'}, s.cf.MaxVal+1)}}
+	case badStaleTs:
 		if cur == 0 {
 			return
 		}
-		name, bulk = "stale-ts", []*tbtree.KVT{{K: s.poolKey(), V: s.value()}, {K: s.poolKey(), V: s.value(), T: cur - uint64(s.r.IntN(2))*uint64(s.r.Int64N(int64(cur)))}}
+		bad = []*tbtree.KVT{{K: s.poolKey(), V: s.value(), T: cur - uint64(s.r.IntN(2))*uint64(s.r.Int64N(int64(cur)))}}
+	case badDecreasingTs:
+		k := s.poolKey()
+		t1 := cur + 2 + uint64(s.r.IntN(3))
+		t2 := cur + 1 + uint64(s.r.Int64N(int64(t1-cur-1)))
+		if t2 == cur+1 && s.r.IntN(2) == 0 {
+			t2 = 0 // the zero form of "current time plus one"
+		}
+		bad = []*tbtree.KVT{{K: k, V: s.value(), T: t1}, {K: k, V: s.value(), T: t2}}
+	}
+	var bulk []*tbtree.KVT
+	if kind != badEmptyBulk {
+		avoid := bad[0].K
+		n := s.r.IntN(7)
+		if s.r.IntN(6) == 0 {
+			n = 10 + s.r.IntN(30) // spread over many leaves: some children are updated before the refusal
+		}
+		valid := s.validEntries(n, avoid)
+		// the offending entries go first, in the middle or last among the valid ones
+		p1 := s.r.IntN(len(valid) + 1)
+		p2 := p1 + s.r.IntN(len(valid)-p1+1)
+		switch {
+		case p1 == 0 && len(valid) > 0:
+			place = "first"
+		case p2 < len(valid):
+			place = "middle"
+		}
+		bulk = append(bulk, valid[:p1]...)
+		bulk = append(bulk, bad[0])
+		bulk = append(bulk, valid[p1:p2]...)
+		if len(bad) > 1 {
+			bulk = append(bulk, bad[1])
+		}
+		bulk = append(bulk, valid[p2:]...)
 	}
 	var err error
 	if !s.guard("BulkInsert("+name+")", func() { err = s.t.BulkInsert(bulk) }) {
@@ -1472,14 +1562,71 @@ func (s *seq) badInsert() {
 	}
 	s.logf("BulkInsert(%s) [%s] -> %s", name, bulkString(bulk), errClass(err))
 	s.c.Eval(1)
-	s.c.Distinct(fmt.Sprintf("tree.BulkInsert/%s/%s", name, errClass(err)))
 	if err == nil {
+		s.c.Distinct(fmt.Sprintf("tree.BulkInsert/refused/%s/accepted", name))
 		s.violation("tree.BulkInsert/"+name+"-accepted", fmt.Sprintf("BulkInsert(%s) at ts %d succeeded", bulkString(bulk), cur))
 		return
 	}
-	s.afterMutation("rejected BulkInsert(" + name + ")")
-	for i := 0; i < 2 && !s.dead.Load(); i++ {
-		s.checkQuery("tree", "", s.depth, s.t, s.m.Now(), query{kind: 0, key: bulk0Key(bulk, s.poolKey())})
+	// the tree as it was before the call: its clock first (every accepted insertion moved it forward)
+	var ts uint64
+	if !s.guard("Ts", func() { ts = s.t.Ts() }) {
+		return
+	}
+	s.c.Eval(1)
+	outcome := "unchanged"
+	state := fmt.Sprintf("reopened=%v/snaps=%v", s.opens > 1, len(s.snaps) > 0)
+	if ts != s.m.Ts() {
+		what := fmt.Sprintf("BulkInsert(%s) at ts %d was refused (%v); afterwards the tree is at ts %d", bulkString(bulk), cur, err, ts)
+		if s.opens > 1 && s.m.At(ts).Versions() < s.m.At(s.tsAtOpen).Versions() {
+			s.c.Distinct(fmt.Sprintf("d%d/tree.BulkInsert/refused/%s/%s/%s/emptied", s.depth, name, place, state))
+			s.violation("bulkinsert-refused/after-reopen/tree-emptied", what+fmt.Sprintf(": older than the state loaded when the tree was opened (ts %d, %d keys): what was read from disk is gone too", s.tsAtOpen, s.m.At(s.tsAtOpen).Len()))
+			return
+		}
+		if ts > s.m.Ts() {
+			s.violation("bulkinsert-refused/clock-advanced", what+", ahead of the model")
+			return
+		}
+		lost := s.m.Versions() - s.m.CloneAt(ts).Versions()
+		s.record("bulkinsert-refused/accepted-inserts-lost", what+fmt.Sprintf(": %d accepted versions (and the clock advance from %d) written since the last flush are gone", lost, ts))
+		// the sequence goes on from what the tree rolled back to
+		s.m.TruncateAfter(ts)
+		outcome = "rolled-back"
+		if ts < s.tsAtOpen {
+			// only the clock advance recorded in the timestamp file was lost; that file still holds
+			// it, so the next restart would bring it back: the sequence ends here rather than chase that
+			s.dead.Store(true)
+			return
+		}
+	}
+	// nothing of the refused bulk may be there
+	for i, e := range bulk {
+		if i == 6 || s.dead.Load() {
+			break
+		}
+		if len(e.K) == 0 || len(e.K) > s.cf.MaxKey {
+			continue
+		}
+		var val []byte
+		var vts uint64
+		var gerr error
+		if !s.guard("Get", func() { val, vts, _, gerr = s.t.Get(e.K) }) {
+			return
+		}
+		s.c.Eval(1)
+		if gerr == nil && vts > s.m.Ts() {
+			s.violation("bulkinsert-refused/partially-applied", fmt.Sprintf("BulkInsert(%s) at ts %d was refused (%v) but Get(%s) = %s@%d", bulkString(bulk), cur, err, hx(e.K), hx(val), vts))
+			return
+		}
+		s.checkQuery("tree", "", s.depth, s.t, s.m.Now(), query{kind: 0, key: e.K})
+	}
+	if s.dead.Load() {
+		return
+	}
+	s.c.Distinct(fmt.Sprintf("d%d/tree.BulkInsert/refused/%s/%s/%s/%s/%s", s.depth, name, place, state, errClass(err), outcome))
+	s.afterMutation("refused BulkInsert(" + name + ")")
+	// ... and after flush + restart
+	if !s.dead.Load() && s.busy == 0 && s.r.IntN(5) == 0 {
+		s.reopen()
 	}
 }
 
@@ -1516,6 +1663,9 @@ func (s *seq) increaseTs() {
 		s.m.AdvanceTs(ts)
 	}
 	s.afterMutation("IncreaseTs")
+	if !s.dead.Load() && ts > cur && s.r.IntN(6) == 0 {
+		s.badInsert(badDecreasingTs) // refusal right after a clock advance
+	}
 }
 
 func (s *seq) flush() {
@@ -1573,6 +1723,7 @@ func (s *seq) compact() {
 	if s.conc && s.r.IntN(2) == 0 {
 		// background compaction while the writer proceeds
 		done := make(chan struct{})
+		s.busy++
 		var panicked bool
 		var psig, ptext string
 		go func() {
@@ -1593,6 +1744,7 @@ func (s *seq) compact() {
 			seen[s.m.Ts()] = true
 		}
 		<-done
+		s.busy--
 		if panicked {
 			s.violation(panicSig(psig, ptext), "Compact (background): "+ptext)
 			return
@@ -1633,6 +1785,8 @@ func (s *seq) open(phase string) bool {
 		s.violation("tree.Open/"+unexp(err)+phaseSuffix(phase), fmt.Sprintf("Open: %v", err))
 		return false
 	}
+	s.opens++
+	s.tsAtOpen = s.m.Ts()
 	return true
 }
 
@@ -1714,8 +1868,23 @@ func (s *seq) reopen() {
 			return
 		}
 	}
+	// a refusal right after a restart, before anything was flushed or snapshotted in this
+	// session: directly, or with one accepted insertion pending
+	if s.r.IntN(3) == 0 {
+		if s.r.IntN(2) == 0 {
+			s.insert()
+		}
+		if !s.dead.Load() {
+			s.badInsert(badDecreasingTs)
+		}
+		if s.dead.Load() {
+			return
+		}
+	}
 	var snap *tbtree.Snapshot
-	if !s.guard("Snapshot", func() { snap, err = s.t.Snapshot() }) {
+	// (a plain Snapshot may reuse the persisted root, which is older than the tree's clock when the
+	// clock was advanced without insertions; the comparison wants everything up to the model's clock)
+	if !s.guard("Snapshot", func() { snap, err = s.t.SnapshotMustIncludeTs(s.m.Ts()) }) {
 		return
 	}
 	if err != nil {
@@ -1826,6 +1995,7 @@ func (s *seq) burst() {
 	held := s.snaps
 	s.snaps = nil
 	s.held = len(held)
+	s.busy++
 	n := 3 + s.r.IntN(12)
 	for i := 0; i < n && !s.dead.Load(); i++ {
 		switch x := s.r.IntN(10); {
@@ -1847,6 +2017,7 @@ func (s *seq) burst() {
 	}
 	s.snaps = append(held, s.snaps...)
 	s.held = 0
+	s.busy--
 	if !s.dead.Load() {
 		s.afterMutation("burst")
 	}
@@ -1899,7 +2070,7 @@ func (s *seq) run(nops int) {
 		case x < 34:
 			s.increaseTs()
 		case x < 36:
-			s.badInsert()
+			s.badInsert(-1)
 		case x < 46:
 			for i := 0; i < 3 && !s.dead.Load(); i++ {
 				s.checkQuery("tree", "", s.depth, s.t, s.m.Now(), s.genQuery(s.r, s.m.Now(), s.m.Ts()))
